@@ -1,6 +1,21 @@
 """One entry per claimed property: level, technique, texts. bin/mkmanifest turns this into MANIFEST.json."""
 ALL = ['C%02d' % i for i in range(1, 21)]
 CHECKS = {
+ 'C20': dict(level='exploration', ref='3/C20',
+   technique='bounded-exhaustive enumeration of dependency graphs x external-variable markings x declared dependencies; analysis compared with the unmarked analysis, generated code run with a recording callback',
+   text='Every dependency graph (n <= 2 complete in quick) in every placement, with every marking of up to two variables as external (states, constants, computed constants, algebraic and NLA unknowns, '
+        'non-primary twins, both twins, the VOI, a foreign variable) and every declared dependency of at most one variable (legal and illegal): exactly the marked classes become external with a placeholder '
+        'equation, variables that do not depend on them keep type and equation type, an under-constrained model whose only unknown is marked becomes valid, VOI/twin/foreign markings leave the analysis valid and '
+        'are reported with a message, addDependency refuses itself and foreign variables; the generated C and Python obtain external values only through the callback, invoke it (last) after the declared '
+        'dependency holds its final value, and every other value equals the reference.',
+   note='Trusted: lib/depgraph.py reference values, lcx dump, gcc/CPython. Not covered: n > 3, more than one declared dependency, dependencies on states.'),
+ 'C17': dict(level='exploration', ref='3/C17',
+   technique='bounded-exhaustive enumeration of analysed models (expression shapes, dependency graphs with external variables, invalid models); generated C compiled with -Wall -Wextra -Werror and loaded, Python exec\'d, structure compared with the AnalyserModel',
+   text='For every model of the C03 shape enumeration (wrappers algebraic / ODE / NLA, every helper-requiring operator alone and nested in every operand position) and every external-variable '
+        'model of the C20 enumeration: the C interface+implementation compile without any diagnostic except unused-parameter/-variable, STATE_COUNT / VARIABLE_COUNT and every VOI/STATE/VARIABLE_INFO entry '
+        '(name, units, component, type, NUL inside its declared buffer) equal the AnalyserModel, every declared function is defined exactly once with the same signature, each helper function is emitted '
+        'iff some equation AST uses its operator under that profile, and the Python module loads with the same tables; for missing, null, invalid, under-/over-/unsuitably constrained models all code strings are empty.',
+   note='Trusted: gcc 12 diagnostics, ctypes view of the loaded library, the AST walk through the public AnalyserEquationAst API. Not covered: custom profiles.'),
  'C01': dict(level='exploration', ref='3/C01',
    technique='deviation-bounded exhaustive enumeration: every document within <= 1 (quick) / <= 2 (thorough) deviations of 22 seed document sets, plus exhaustive MathML shape, scale and cycle '
              'families, driven through the whole pipeline under ASan+UBSan with crash isolation per case',
@@ -205,7 +220,7 @@ CHECKS = {
         'every single fault (file missing, truncated at 6 prefix classes, other XML, CellML 1.1 with strict and permissive importer, 2.0 with parse errors / validation errors / parser warnings, '
         'every entity of every library file removed, every back-edge closing an import cycle of each length) on every resolvable connected graph of four of these shapes; repair sequences '
         'resolve(fault) -> [flatten] -> repair on disk / in the library -> {importer as is, after removeAllModels(), new importer} x {same root object, root parsed again} -> resolve -> flatten '
-        'on the 2- and 3-file shapes. Thorough adds 4 files x 1+1 with <= 4 imports (434 432 graphs), 3 files x 2+2 with <= 4 imports (691 489), 1|1+3|0+1 (118 098), with their fault families, '
+        'on the 2- and 3-file shapes. Thorough adds 4 files x 1+1 with <= 5 imports (893 184 graphs), 3 files x 2+2 with <= 4 imports (691 489), 1|1+3|0+1 (118 098), with their fault families, '
         'and repairs on three more shapes. resolveImports is compared with the reference (true exactly when every transitive import is satisfiable), then hasUnresolvedImports(), the item of the '
         'issues, flattenModel (null with an issue when unresolved), libraryCount()/key(i)/library(), Logger coherence after every call; every call runs under a stack-overflow guard so that '
         'non-termination by unbounded recursion is recorded per step and the scenario continues. Complete for the stated bounds; nothing is sampled.',
